@@ -90,7 +90,7 @@ class _SplitConditionalEffects(ast.NodeTransformer):
     def _unroll_filtered_list(self, s):
         """`xs = [E for T in <literal rows> if C]`  ->  `xs = []` + `for T in rows: if C: xs.append(E)`"""
         if not (isinstance(s, ast.Assign) and len(s.targets) == 1 and isinstance(s.targets[0], ast.Name) and isinstance(s.value, ast.ListComp)
-                and len(s.value.generators) == 1 and s.value.generators[0].ifs and isinstance(s.value.generators[0].iter, (ast.Tuple, ast.List))):
+                and len(s.value.generators) == 1 and s.value.generators[0].ifs and isinstance(s.value.generators[0].iter, (ast.Tuple, ast.List, ast.Name))):
             return [s]
         comp, g = s.value, s.value.generators[0]
         init = ast.copy_location(ast.Assign(targets=s.targets, value=ast.copy_location(ast.List(elts=[], ctx=ast.Load()), s)), s)
